@@ -16,7 +16,9 @@ LEVEL = {
     "conjuncts on consecutive decoded states: C06.extend_only_if_no_free, C06.bound (slots per class <= peak used + 1); statistics calls must terminate.", note=TRUST),
  "C09": dict(technique=T, text="FitsOK (encoded record <= slot, zero padding) on every model state and every decoded state, C09.neighbours between consecutive "
     "decoded states, round trip of every value through the contract (C01.result); MCLayout enumerates the slot arithmetic exhaustively and the layout-probe "
-    "hook compares the crate's own sizing decision with the table TLC emitted.", note=TRUST),
+    "hook compares the crate's own sizing decision with the table TLC emitted; for EVERY length and offset below 2^31 the same facts (record <= slot, "
+    "slot shape, monotonicity, the free-slot image fits) are proved with TLAPS about the very module the checks use (spec/proofs/AbyLayoutProofs.tla, re-checked by tlapm "
+    "in every run); key lengths are swept end to end as well (keys up to 200000 bytes between two chain neighbours).", note=TRUST + " TLAPS 1.6 with its SMT back end for the proofs."),
  "C17": dict(technique=T, text="Each statistics figure is recomputed by TLC from the decoded structure (free-list lengths per class, size/length histograms "
     "of live non-empty records, occupied buckets) and from the contract state and compared with what the crate reported (C17.*); StatsOK is an "
     "invariant of MCStore_* (slot walk = live + free).", note=TRUST),
@@ -39,11 +41,15 @@ LEVEL["C03"] = dict(technique=T, text="Durability contract in the trace specific
     "the disk image is known to equal the ideal map. Every such call in the generated histories is a crash point: the directory is copied with all handles "
     "alive and opened in another process (C03.snapshot), in a third of the histories the writer is SIGKILLed right after a database sync and the directory "
     "itself is reopened; sync calls must reach the OS for each of the three files (C03.sync_calls, from the io-trace hook); created-only maps must snapshot to "
-    "a valid empty map.", note=TRUST + " The OS-sync evidence comes from the io-trace hook in VarFile (thorough: cross-checked with strace).")
+    "a valid empty map; histories in which an overwrite relocates the head record of a chain are flushed and snapshot after every update. The buffering design "
+    "itself (AbyBuf: chunk cache, map-level dirty flag, flush order) has its invariants model-checked for small caches and PROVED inductive with TLAPS for every cache "
+    "size and number of chunks (spec/proofs/AbyBufProofs.tla, re-checked by tlapm in every run).", note=TRUST + " TLAPS 1.6 with its SMT back end for the proofs. The OS-sync evidence comes from the io-trace hook in VarFile (thorough: cross-checked with strace).")
 LEVEL["C16"] = dict(technique=T, text="Fault mode of the durability contract: with RLIMIT_FSIZE lowered to a threshold (SIGXFSZ ignored, full buffering so only the flush writes) "
     "one flush/sync runs; if it answers ok a snapshot must equal the ideal map (C16.reported), all reads afterwards equal the contract (C16.view), and after "
     "the limit is lifted the next flush must be ok and its snapshot equal the ideal map (C16.recover). Thresholds sweep 0..beyond the file ends incl. header "
-    "and 128 KiB chunk borders for three workload shapes so that each of the three files is in turn the first to fail.", note=TRUST + " Kernel semantics of RLIMIT_FSIZE.")
+    "and 128 KiB chunk borders for three workload shapes so that each of the three files is in turn the first to fail; in further histories the call is retried "
+    "while the condition persists and after it is lifted, with updates in between. FlushErrKeeps / FlushDurable of the design (AbyBuf) are model-checked and proved "
+    "inductive with TLAPS for every cache size (spec/proofs/AbyBufProofs.tla).", note=TRUST + " TLAPS 1.6 (SMT back end). Kernel semantics of RLIMIT_FSIZE.")
 LEVEL["C07"] = dict(technique=T, text="The contract layer has no parameter at all: the same seeded history is executed under several configurations (bucket parameter "
     "BucketsSize/Capacity 1..65536/Default x Size/PerMille/Auto buffers per file, with enough data to pass several buffer chunks and force eviction) and every "
     "configuration must agree with the ONE model, event by event; the stored bucket count must equal BucketsFromParam (AbyLayout) of the creation parameter "
@@ -69,7 +75,9 @@ LEVEL["C15"] = dict(technique=T, text="Read actions leave the contract state unc
 LEVEL["C18"] = dict(technique=T, text="The design layer is a function of (state, operation) by construction (no choice in any update operator; TLC explores one successor per label). "
     "Each generated history is executed twice: replica A plainly, replica B in another process and directory with read-only calls (incl. traversals of "
     "empty and sparse small tables) spliced in; the digests of the three files after close must be equal (C18.equal).", note=TRUST)
-LEVEL["C12"] = dict(technique=T, text="15 golden images (5 key types x 3 histories with deletes, large slots and non-empty free lists) written by a build of the pinned release "
+LEVEL["C12"] = dict(technique=T, text="The byte-level format is stated in TLA+ (AbyFormat: header offsets, signatures, vu64 fields, piece layout, bitmap); TLC decodes the raw bytes "
+    "of small images logged with the trace itself and must agree with the harness decoder field by field (TOOL.format_*). 25 golden images (5 key types x 5 histories: deletes, "
+    "large slots, non-empty free lists, tables with 1 and 4 buckets) written by a build of the pinned release "
     "4b82afd are committed with their contents; the trace starts from that contract state (event load): the current build must open each image with "
     "identical contents (C12.content), leave it byte-identical when only read, keep every other conjunct (C05/C06/C09) while it is updated further, and "
     "re-executing the stored history reproduces the released files byte for byte (reported as SPEC-DRIFT if not: more than the property demands). Placement: every decoded state of every check is judged "
